@@ -79,6 +79,10 @@ class LogObj:
         object.__setattr__(self, k, v)
 
 
+def _noop():
+    """action of an observer task (module level, so that a manager holding it can be pickled)"""
+
+
 class Funcs:
     """function container bound to label f"""
     @staticmethod
@@ -276,7 +280,7 @@ class World:
     def make_task(self, t):
         sp = self.taskspec[t]
         if sp["kind"] == "obs":
-            return xt.FunctionTask(t, (lambda: None), set(), {self.ref(x) for x in sp["deps"]})
+            return xt.FunctionTask(t, _noop, set(), {self.ref(x) for x in sp["deps"]})
         if sp["kind"] == "fn":
             i1, i2 = sp["ins"]
             out = sp["out"]
